@@ -47,8 +47,14 @@ def subpixel_fsc(
     max_shifts: tuple[float, float, float],
     backend: Backend,
 ) -> tuple[NDArray[np.float32], float]:
-    out = fsc_landscape(ft0, ft1, max_shifts, backend=backend)
-    return upsample(out, out, max_shifts, (0, 0, 0), backend=backend)
+    # Calculate the landscape with a margin so that the sub-pixel refinement
+    # near the boundary of the range is not affected by the edge of the landscape.
+    pad = 1
+    out = fsc_landscape(
+        ft0, ft1, tuple(m + pad for m in max_shifts), backend=backend  # type: ignore
+    )
+    center = out[(slice(pad, -pad),) * out.ndim]
+    return upsample(center, out, max_shifts, (pad,) * out.ndim, backend=backend)
 
 
 def fsc(
